@@ -157,7 +157,34 @@ func c13(c *hx.Ctx) {
 	salts := [][]byte{nil, {}, []byte("s"), []byte("salt"), {0}, c.RandBytes(16), c.RandBytes(40),
 		[]byte("bifrost/peer/derive-key")}
 	lens := []int{0, 1, 2, 16, 31, 32, 33, 64, 65, 200}
-	pick := func(l [][]byte) []byte { return l[c.Rng.Intn(len(l))] }
+	// whitespace neighbours, and long contexts / salts in the size classes, each with a
+	// neighbour that differs only in its last byte (long common prefix)
+	ctxs = append(ctxs, []byte(" ctx one"), []byte("ctx one\n"), []byte("\tctx one"))
+	shortCtxs, shortSalts := len(ctxs), 0
+	for _, n := range pickSizes(c, []int{64, 128, 257}, 2) {
+		if n >= 63 {
+			b := patterned(n, 2)
+			ctxs = append(ctxs, b, tailVariant(b))
+		}
+	}
+	shortSalts = len(salts)
+	for _, n := range pickSizes(c, []int{74, 105, 128, 257}, 3) {
+		if n >= 63 {
+			b := patterned(n, 3)
+			salts = append(salts, b, tailVariant(b))
+		}
+	}
+	// pick: short values, or (30%) one of the long ones
+	pick := func(l [][]byte) []byte {
+		short := shortCtxs
+		if len(l) > 0 && len(salts) > 0 && &l[0] == &salts[0] {
+			short = shortSalts
+		}
+		if len(l) > short && c.Rng.Intn(10) < 3 {
+			return l[short+c.Rng.Intn(len(l)-short)]
+		}
+		return l[c.Rng.Intn(short)]
+	}
 	var randKey func(depth int) *keyT
 	randKey = func(depth int) *keyT {
 		if depth <= 0 || c.Rng.Intn(3) != 0 {
@@ -195,6 +222,9 @@ func c13(c *hx.Ctx) {
 		return k
 	}
 	calls := 0
+	var ruSalt, ruOut reuseBuf
+	var prevSalt []byte
+	prevN := 0
 	// one raw call; salt and out are passed exactly as given
 	derive1 := func(ctx, salt []byte, pk crypto.PrivKey, out []byte) dres {
 		var err error
@@ -265,7 +295,27 @@ func c13(c *hx.Ctx) {
 			}
 		} else {
 			r = fresh()
+			// recycled buffers: the previous salt / out, then this salt / out from the same
+			// backing arrays (every other time wiped in between, as callers that scrub do)
+			if r.cls != 9 && prevSalt != nil {
+				derive1(ctx, ruSalt.load(prevSalt), pk, ruOut.load(make([]byte, prevN)))
+				if calls%4 == 0 {
+					ruSalt.zero()
+					ruOut.zero()
+				}
+				var sa []byte
+				if salt != nil {
+					sa = ruSalt.load(salt)
+				}
+				r4 := derive1(ctx, sa, pk, ruOut.load(make([]byte, n)))
+				c.Eval()
+				c.Eval()
+				if !sameRes(r, r4) {
+					c.Failf("c13-buffer-reuse-differs", ad, "DeriveKey with salt/out buffers that held other contents before gave a different result than with fresh buffers")
+				}
+			}
 		}
+		prevSalt, prevN = append([]byte{}, salt...), n
 		if pk != nil {
 			if rawAfter, _ := pk.Raw(); !bytes.Equal(rawBefore, rawAfter) {
 				c.Failf("c13-argument-modified", ad, "DeriveKey modified the private key it was given")
@@ -294,7 +344,29 @@ func c13(c *hx.Ctx) {
 	}
 	mutate := func(a inp) inp {
 		b := a
-		switch c.Rng.Intn(7) {
+		switch c.Rng.Intn(11) {
+		case 7: // salt differs only in its last byte
+			b.salt = tailVariant(a.salt)
+		case 8: // context differs only in its last byte
+			b.ctx = tailVariant(a.ctx)
+		case 9: // leading / trailing whitespace
+			ws := []string{" ", "\t", "\n", "\x00"}[c.Rng.Intn(4)]
+			switch c.Rng.Intn(4) {
+			case 0:
+				b.ctx = append([]byte(ws), a.ctx...)
+			case 1:
+				b.ctx = append(append([]byte{}, a.ctx...), ws...)
+			case 2:
+				b.salt = append([]byte(ws), a.salt...)
+			default:
+				b.salt = append(append([]byte{}, a.salt...), ws...)
+			}
+		case 10: // another long-term key, everything else equal
+			k := 0
+			if a.p.kind == 1 && a.p.key.parent == nil {
+				k = (a.p.key.atom + 1 + c.Rng.Intn(len(keys)-1)) % len(keys)
+			}
+			b.p = privIn{kind: 1, key: &keyT{atom: k}}
 		case 0: // same inputs again (determinism)
 		case 1:
 			b.ctx = pick(ctxs)
@@ -506,6 +578,8 @@ func c14(c *hx.Ctx) {
 	rows := extra25519.VerifEdBlacklist()
 	identity := edwards25519.NewIdentityPoint()
 	seen := map[string]bool{}
+	var ru reuseBuf
+	lastValid := []byte(ed25519.NewKeyFromSeed(c.RandBytes(32)).Public().(ed25519.PublicKey))
 	one := func(ge []byte, class string) {
 		if seen[string(ge)] {
 			return
@@ -587,15 +661,46 @@ func c14(c *hx.Ctx) {
 			return
 		}
 		small := isPoint && new(edwards25519.Point).MultByCofactor(pt).Equal(identity) == 1
-		if isPoint && lo != small {
-			c.Failf("c14-classifier-not-exact", desc, "IsEdLowOrder=%v but the decoded point has small order=%v", lo, small)
+		judge := func(when string, lo bool, conv []byte, valid bool) {
+			if isPoint && lo != small {
+				c.Failf("c14-classifier-not-exact", desc, "%s: IsEdLowOrder=%v but the decoded point has small order=%v", when, lo, small)
+			}
+			wantRefuse := !isPoint || small
+			if valid == wantRefuse {
+				c.Failf("c14-convert-not-exact", desc2, "%s: PublicKeyToCurve25519 valid=%v, required refusal=%v (point=%v small-order=%v)", when, valid, wantRefuse, isPoint, small)
+			}
+			if valid && isPoint && !bytes.Equal(conv, pt.BytesMontgomery()) {
+				c.Failf("c14-convert-wrong-value", desc2, "%s: converted value differs from the Montgomery form of the point", when)
+			}
 		}
-		wantRefuse := !isPoint || small
-		if valid == wantRefuse {
-			c.Failf("c14-convert-not-exact", desc2, "PublicKeyToCurve25519 valid=%v, required refusal=%v (point=%v small-order=%v)", valid, wantRefuse, isPoint, small)
+		judge("fresh buffer", lo, conv, valid)
+		// ---- recycled buffers: another (valid) key is converted from a buffer first ----
+		call := func(b []byte) (lo3 bool, conv3 []byte, valid3 bool, p bool) {
+			p, _ = hx.Catch(func() {
+				lo3 = extra25519.IsEdLowOrder(b)
+				conv3, valid3 = extra25519.PublicKeyToCurve25519(ed25519.PublicKey(b))
+			})
+			c.Eval()
+			return
 		}
-		if valid && isPoint && !bytes.Equal(conv, pt.BytesMontgomery()) {
-			c.Failf("c14-convert-wrong-value", desc2, "converted value differs from the Montgomery form of the point")
+		prev := lastValid
+		// (1) convert prev from the buffer, overwrite the buffer with this input, convert again
+		call(ru.load(prev))
+		lo3, conv3, valid3, p3 := call(ru.load(ge))
+		if p3 || lo3 != lo || valid3 != valid || !bytes.Equal(conv3, conv) {
+			c.Failf("c14-buffer-reuse-differs", desc2, "after converting key %x from a buffer and overwriting the buffer with this input, the result differs from the one on a fresh buffer", prev)
+		}
+		judge("buffer that held another key before", lo3, conv3, valid3)
+		// (2) convert prev from the buffer, wipe the buffer (callers scrub keys), convert this input from a fresh buffer
+		call(ru.load(prev))
+		ru.zero()
+		lo4, conv4, valid4, p4 := call(append([]byte{}, ge...))
+		if p4 || lo4 != lo || valid4 != valid || !bytes.Equal(conv4, conv) {
+			c.Failf("c14-buffer-reuse-differs", desc2, "after converting key %x from a buffer and wiping that buffer, converting this input from a fresh buffer gives a different result than before", prev)
+		}
+		judge("after another key's buffer was wiped", lo4, conv4, valid4)
+		if valid && !small {
+			lastValid = append([]byte{}, ge...)
 		}
 	}
 	// oracleOnly runs the implementation and the direct oracle without emitting a Coq case
